@@ -13,6 +13,7 @@ import progs
 from core import canon, digest, rng_for, wchoice
 
 PROP = "C10"
+CROSS = True  # every lifetime is run a second time with its histories in reverse order (runner: cross-lifetime oracle)
 
 HASHSEEDS = {"quick": [0, 1], "thorough": [0, 1, 2, 3, 4, 5, 6, 7]}
 CACHES = {"quick": [8, 1000], "thorough": ["off", 8, 64, 1000]}
@@ -111,7 +112,7 @@ class Gen:
         base_w = {
             "compile_str": 5.0, "compile_callable": 1.5, "compile_defs": 2.5, "compile_param": 1.2, "param_defs": 1.0,
             "to_logicfun": 0.8, "bind": 3.0, "oraclize": 2.0, "algo": 3.0, "secret_oracle": 0.4,
-            "export": 2.0, "decompile": 1.0, "truth_table": 1.5, "header": 0.3, "repr": 0.3, "again": 1.5, "forget": 0.8, "canary": 1.2, "variant": 0.8, "recompile": 0.6,
+            "export": 2.0, "decompile": 1.0, "truth_table": 1.5, "header": 0.3, "repr": 0.3, "again": 1.5, "forget": 0.8, "canary": 1.2, "variant": 0.8, "recompile": 0.6, "decode": 0.5,
         }
         # swarm: every run disables / boosts a random subset of op kinds
         self.w = {k: v * r.choice([0, 0.5, 1, 1, 2, 3]) for k, v in sorted(base_w.items())}
@@ -199,14 +200,21 @@ class Gen:
 
     def copts(self):
         r = self.r
-        return {"opt": "fast" if r.random() < 0.3 else "default", "uncompute": r.random() >= 0.15, "to_compile": r.random() >= 0.12}
+        o = {"opt": "fast" if r.random() < 0.3 else "default", "uncompute": r.random() >= 0.15, "to_compile": r.random() >= 0.12}
+        if self.arm == "reject" and r.random() < 0.12:
+            # the second back end accepts only xor-chains: most programs are refused in mid-synthesis
+            o["compiler"] = r.choice(["recompiler", "recompiler", "nosuchcompiler"])
+            o["to_compile"] = True
+        return o
 
     # -- op builders (each returns True if it emitted an op)
     def b_compile_str(self, s, callable_=False):
         r = self.r
         src, meta = self.corpus_prog()
         rejected = False
+        clean_src = None
         if self.arm == "reject" and r.random() < 0.35:
+            clean_src = src
             kind, src = progs.make_rejector(src, r)
             rejected = True
         elif self.arm == "reject" and progs.REJECT and r.random() < 0.1:
@@ -219,6 +227,8 @@ class Gen:
         elif r.random() < 0.6:
             name = self.pick_name()
             src = progs.rename(src, name)
+            if clean_src is not None:
+                clean_src = progs.rename(clean_src, name)
         if self.cfg["argrename"] and r.random() < 0.5 and not rejected and not meta.get("twin"):
             src2 = progs.rename_args(src, r)
             if src2 != src:
@@ -231,6 +241,19 @@ class Gen:
                     pass
         a = {"src": src}
         a.update(self.copts())
+        if not callable_ and not rejected and r.random() < 0.04:
+            # a program over a user-defined type, with (or, as F1, without) types=[...]
+            w = r.choice([9, 10, 11])
+            i, j = r.randrange(w), r.randrange(w)
+            src = f"def {name}(a: Qint{w}) -> bool:\n    return a[{i}] ^ (not a[{j}])\n"
+            meta = {"id": "custom", "nargs": 1, "in_bits": w, "ret_bool": True, "argsig": None, "retsig": "bool", "t": 0.01, "outcome": "ok"}
+            a["src"] = src
+            if not (self.arm == "reject" and r.random() < 0.3):
+                a["types"] = [f"Qint{w}"]
+            else:
+                rejected = True
+        if "compiler" in a and not rejected:
+            rejected, clean_src = True, src
         if callable_:
             a["via"] = r.choice(["plain", "plain", "deco", "qlassfa"])
             kind = "compile_callable"
@@ -242,6 +265,14 @@ class Gen:
         m2 = dict(meta)
         m2["compiled"] = a["to_compile"] or a["via"] == "deco"
         self.add(kind, a, [], s, "none" if rejected else "qf", m2, name, digest(src, 8))
+        if rejected and clean_src is not None and r.random() < 0.5:
+            # fix and retry: what a user does right after an exception -- the same program without
+            # the offending construct, same name, same options, as the very next operation
+            a2 = dict(a, src=clean_src)
+            a2.pop("compiler", None)
+            self.note_name(name, clean_src)
+            oid = self.add(kind, a2, [], s, "qf", m2, name, digest(clean_src, 8))
+            self.interesting.append(oid)
         return True
 
     def b_compile_callable(self, s):
@@ -453,6 +484,17 @@ class Gen:
             return False
         e = self.pick(c, s)
         self.add("header", {"target": e["id"]}, [e["id"]], s, "none")
+        return True
+
+    def b_decode(self, s):
+        """read-only decoding API of functions and algorithm wrappers"""
+        r = self.r
+        c = self.cands(lambda e: (e["rk"] == "qf" and e["meta"].get("compiled", True)) or e["rk"] == "algo")
+        if not c:
+            return False
+        e = self.pick(c, s)
+        bits = "".join(r.choice("01") for _ in range(12))
+        self.add("decode", {"target": e["id"], "bits": bits, "counts": [r.randint(1, 50) for _ in range(3)]}, [e["id"]], s, "none")
         return True
 
     def b_repr(self, s):
@@ -740,6 +782,13 @@ def _opt(name):
     return fastOptimizer if name == "fast" else defaultOptimizer
 
 
+def _custom_type(name):
+    """a user-defined integer type, as test/utils.py does it (class Qint14(QintImp): BIT_SIZE = 14)"""
+    from qlasskit.types.qint import QintImp
+
+    return type(name, (QintImp,), {"BIT_SIZE": int(name[4:])})
+
+
 def _compile_callable(op, a, objs, tmpdir):
     import types as _types
 
@@ -778,6 +827,10 @@ def do_op(op, objs, tmpdir):
 
         defs = [objs[i] for i in a.get("defs", [])]
         kw = dict(to_compile=a["to_compile"], uncompute=a["uncompute"], bool_optimizer=_opt(a["opt"]))
+        if "compiler" in a:
+            kw["compiler"] = a["compiler"]
+        if "types" in a:
+            kw["types"] = [_custom_type(t) for t in a["types"]]
         if a["via"] == "from_function":
             return QlassF.from_function(a["src"], defs=defs, **kw)
         return qlassf(a["src"], defs=defs, **kw)
@@ -825,6 +878,16 @@ def do_op(op, objs, tmpdir):
         return F.fp_table(objs[a["target"]].truth_table(max=a["max"]))
     if k == "header":
         return {"kind": "header", "h": list(objs[a["target"]].truth_table_header())}
+    if k == "decode":
+        o = objs[a["target"]]
+        n = o.output_size
+        outs = []
+        for sh in range(3):
+            b = (a["bits"][sh:] + a["bits"])[: max(n, 1)]
+            outs.append(b)
+        counts = dict(zip(outs, a["counts"]))
+        dec = o.decode_counts(counts)
+        return {"kind": "decoded", "n": n, "out": sorted([repr(kx), vx] for kx, vx in dec.items()), "one": repr(o.decode_output(outs[0])), "iq": [list(o.input_qubits) if hasattr(o, "args") else None, list(o.output_qubits)]}
     if k == "recompile":
         import fingerprint as F
 
@@ -862,7 +925,7 @@ def role_of(op, victim):
     return "bystander"
 
 
-STATIC_LINES = {"recompile": 3000, "compile_str": 6000, "compile_callable": 6000, "bind": 5000, "oraclize": 5000, "algo": 300, "secret_oracle": 5000,
+STATIC_LINES = {"decode": 60, "recompile": 3000, "compile_str": 6000, "compile_callable": 6000, "bind": 5000, "oraclize": 5000, "algo": 300, "secret_oracle": 5000,
                 "export": 200, "decompile": 300, "truth_table": 800, "header": 20, "repr": 30, "to_logicfun": 10, "forget": 1}
 
 
@@ -1124,7 +1187,10 @@ def run_history(cfg, ops, faults, prefix, tmpdir, est=None):
         cap = 4 * len(ops) + 20
         hrec = {r["i"]: r for r in records}
         bad = lambda j: hrec.get(j, {"outcome": "skipped"})["outcome"].startswith(("faulted", "skipped"))
-        for op in ops:
+        # in REVERSE order of the history: every closure then has another immediate predecessor
+        # than it had in the history (residue that only affects the very next call would otherwise
+        # be reproduced faithfully and go unseen)
+        for op in reversed(ops):
             k = op["id"]
             if k in late_done or op["kind"] == "forget" or bad(k):
                 continue
@@ -1294,6 +1360,7 @@ def run_segment(plan, ctx, detail=False, table=None):
         outc[oc] = outc.get(oc, 0) + 1
     out = {
         "status": "ok", "digest": dg, "violation": violation, "steps": len(recs), "placed": hres.get("placed", []),
+        "ops": [[h["i"], h["outcome"], h.get("fp")] for h in recs],
         "stats": {"ops": opk, "outcomes": outc, "faults_planned": planned, "faults_fired": fired, "probes": hres.get("probes", {}), "states": sorted(set(hres.get("states", []))), "arm": cfg["arm"],
                   "lines": sum(h.get("lines", 0) for h in recs), "late_ops": hres.get("late_ops", 0), "compared": compared,
                   "fired_sites": sorted({f"{f[1]}:{f[2]}" for h in recs for f in h.get("fired", []) if f[1] != "<between-ops>"})},
